@@ -1131,7 +1131,7 @@ Definition wf (v : pyval) : bool :=
 (* column declarations the theorems speak about *)
 Definition coltype_ok (T : coltype) : bool :=
   match T with
-  | TDecStr size prec _ => (prec <=? 6) && (prec <=? size) && (size <=? 28)
+  | TDecStr size prec _ => (prec <=? 6) && (prec <=? size) && (1 <=? size) && (size <=? 28)
   | TDecimal size prec => prec <=? size
   | _ => true
   end.
